@@ -42,7 +42,7 @@ CHECKS = {
    "Trusted: the authentication model (signature, nonce, balance, reserved address); key-manager methods only to validation depth.",
    "DESIGN.md 4/C08"),
  "C09": ("exploration", "history monitor with independent signature verifier and forger",
-   "Fresh, replayed, reordered, bit-flipped and cross-context transactions are delivered; a transaction that takes effect (non-empty state diff or code OK) must verify under an independent ed25519 check of this chain's transaction context, carry the signer's current nonce, advance exactly that nonce by one, and its bytes never take effect twice. Copies of the proposer's own proposal with one signature bit flipped are offered to ProcessProposal, and signatures made for another domain are first shown to that domain's handler inside a carrier transaction. All 256 bits of the stated public key are flipped, some accounts start at the end of the 64-bit nonce space, and a decodable envelope whose signature does not verify must be refused by signature verification itself.",
+   "Fresh, replayed, reordered, bit-flipped and cross-context transactions are delivered; a transaction that takes effect (non-empty state diff or code OK) must verify under an independent ed25519 check of this chain's transaction context, carry the signer's current nonce, advance exactly that nonce by one, and its bytes never take effect twice. Copies of the proposer's own proposal with one signature bit flipped are offered to ProcessProposal, and signatures made for another domain are first shown to that domain's handler inside a carrier transaction. All 256 bits of the stated public key are flipped, some accounts start at the end of the 64-bit nonce space, and a decodable envelope whose signature does not verify must be refused by signature verification itself. Read-fault twins (hook H6): restarted on-disk replicas execute blocks with single transient failing node reads aimed at the authentication of stale transactions; the block must be aborted (and replay equal after a restart) or the nonce discipline must hold on the faulted node.",
    "Trusted: independent sha512/256 + ed25519 verification in the harness.",
    "DESIGN.md 4/C09"),
  "C10": ("exploration", "panic/reject monitor over hostile block histories",
